@@ -45,4 +45,18 @@ V_ENSURES(!__CPROVER_return_value || option != ZCK_VAL_HEADER_LENGTH || (zck->pr
 V_ENSURES(__CPROVER_return_value || (zck->prep_hash_type == V_OLD(zck->prep_hash_type) && zck->prep_hdr_size == V_OLD(zck->prep_hdr_size))) /*@C07.set_ioption.failure_changes_no_pin*/
 V_ENSURES(__CPROVER_return_value == (V_OLD(zck->error_state) == 0 && zck->mode == ZCK_MODE_READ && value >= 0 && (option != ZCK_VAL_HEADER_HASH_TYPE || (zck->prep_digest == NULL && value <= INT_MAX)))) /*@C07.set_ioption.accept_iff*/
 ;
+
+/* zck_close on a context opened for READING (C02 v): success only if the whole-data checksum,
+ * finalised over everything the reads fed to it, equals the stored one (validate_file's verdict) */
+bool zck_close(zckCtx *zck)
+V_REQUIRES(__CPROVER_rw_ok(zck, sizeof(*zck)) && zck->mode == ZCK_MODE_READ)
+V_REQUIRES(HASH_OBJ_WF(&zck->check_full_hash) && (zck->check_full_hash.type == NULL || zck->check_full_hash.type == &zck->hash_type))
+V_REQUIRES(SPEC_HASH_VALID(zck->hash_type.type) && zck->hash_type.digest_size == SPEC_DIGEST_SIZE(zck->hash_type.type))
+V_REQUIRES(zck->has_uncompressed_source != 0 || (zck->full_hash_digest != NULL && __CPROVER_r_ok(zck->full_hash_digest, zck->hash_type.digest_size)))
+V_ASSIGNS(zck->check_full_hash.type, zck->check_full_hash.ctx, zck->error_state, g_hu_final, g_fin_val, g_fin_total, g_fin_seen, g_fin_ptr)
+V_FREES(zck->check_full_hash.ctx)
+V_ENSURES(!__CPROVER_return_value || V_OLD(zck->error_state) == 0) /*@C02,C12.zck_close.never_succeeds_on_a_context_in_error*/
+V_ENSURES(!__CPROVER_return_value || zck->has_uncompressed_source != 0 || &zck->check_full_hash != g_hu_hash || (g_hu_final == V_OLD(g_hu_final) + 1 && g_fin_total == V_OLD(g_hu_total) && g_fin_seen == V_OLD(g_hu_seen))) /*@C02.zck_close.read_mode_success_only_after_the_data_checksum_was_finalised_over_all_bytes_read*/
+V_ENSURES(!__CPROVER_return_value || zck->has_uncompressed_source != 0 || &zck->check_full_hash != g_hu_hash || !(g_k1 < (size_t)zck->hash_type.digest_size) || g_fin_val == zck->full_hash_digest[g_k1]) /*@C02.zck_close.read_mode_success_only_if_every_data_digest_byte_equal*/
+;
 #endif
